@@ -100,6 +100,8 @@ def check_ijepa(grid, cfg, batch, seed, steps):
             if t.shape[1] > 1 and not bool((t[:, 1:] > t[:, :-1]).all()):
                 return f"{name} indices not sorted / not duplicate-free"
         (ph, pw), (eh, ew) = sizes_of_step(step, cfg, H, W)
+        if ph < 1 or pw < 1 or eh < 1 or ew < 1:
+            continue            # a block of zero patches: the configured scale does not give a block on this grid (outside the property's domain)
         shapes = set()
         for r in range(pred.shape[0]):
             ok, nr, ncol = rect_of(pred[r], W)
